@@ -45,6 +45,10 @@ def run_history(rec, cfg, script, sid=1, variant=0):
         elif act == "reply-enc":
             if req is None:
                 continue
+            if req.broken or not req.names:          # the agent cannot read the request (judged at the Send event): no reply
+                sess.recv(op)
+                req = None
+                continue
             vbs = [(n, ("int", 7)) for n in req.names] if op != "getnext" else [(list(req.names[0]) + [1], ("int", 7))]
             vbs = [(bytes(n) if not isinstance(n, list) else bytes(n), v) for n, v in vbs]
             advance()
